@@ -138,6 +138,10 @@ func genSyntheticPair(r *rand.Rand) (a, b []geneRec, pattern string) {
 		return res
 	}
 	n := int64(r.Intn(41))
+	if r.Intn(150) == 0 {
+		n = pick(r, int64(64), 255, 256, 257, 1000, 4096) // genomes of a long run
+		c07LongLists++
+	}
 	switch p := r.Intn(9); p {
 	case 0: // empty overlap, interleaved: odd vs even
 		var x, y []int64
@@ -206,6 +210,8 @@ func genSyntheticPair(r *rand.Rand) (a, b []geneRec, pattern string) {
 	}
 }
 
+var c07LongLists int
+
 func runC07(c *Ctx, idx int) {
 	r := c.G
 	n := 400
@@ -229,10 +235,23 @@ func runC07(c *Ctx, idx int) {
 			c.Count("pairs.evolved", 1)
 		} else {
 			ra, rb, pattern = genSyntheticPair(r)
+			if c07LongLists > 0 {
+				c.Count("pairs.gene_lists_of_64_to_4096", c07LongLists)
+				c07LongLists = 0
+			}
 			if r.Intn(10) == 0 {
 				// innovation numbers are int64: a population that has issued very many of them (or a file written elsewhere)
 				// carries numbers far beyond 2^53
+				top := int64(0)
+				for _, rec := range append(append([]geneRec{}, ra...), rb...) {
+					if rec.innov > top {
+						top = rec.innov
+					}
+				}
 				base := pick(r, int64(1)<<53, math.MaxInt64-200)
+				if top > 190 {
+					base = pick(r, int64(1)<<53, math.MaxInt64-top-10) // (the largest number stays below the maximal int64)
+				}
 				for i := range ra {
 					ra[i].innov += base
 				}
